@@ -150,6 +150,14 @@ impl Response {
             }
             _ => (/* let it go by user's responsibility */)
         }
+
+        /* `set_stream` announces `Transfer-Encoding: chunked`: when the stream was
+           replaced or dropped afterwards, what is sent is not written in chunks */
+        #[cfg(feature="sse")]
+        if !/* not */matches!(self.content, Content::Stream(_))
+        && !/* not */self.headers.TransferEncoding().is_none() {
+            self.headers.set().TransferEncoding(None);
+        }
     }
 }
 
